@@ -486,33 +486,40 @@ def run_check(chk, tier, seed, replay=None):
     problems = []          # things that make the run a VIOLATION without a concrete input
     trusted = []
 
-    ok, msg = prepare_repo()
-    if not ok:
-        problems.append(('setup', msg))
+    # translator + proofs + extraction under one lock: a run against a scratch copy (VERIF_REPO) regenerates
+    # coq/Gen/*.v and must not interleave with another run's build
+    gen_lock = Lock('gen')
+    gen_lock.__enter__()
+    try:
+        ok, msg = prepare_repo()
+        if not ok:
+            problems.append(('setup', msg))
 
-    hits = forbidden_scan()
-    if hits:
-        problems.append(('forbidden', 'forbidden declarations in the development:\n' + '\n'.join(hits)))
+        hits = forbidden_scan()
+        if hits:
+            problems.append(('forbidden', 'forbidden declarations in the development:\n' + '\n'.join(hits)))
 
-    # --- proofs
-    pfile = chk.properties_file or ('Properties/%s.v' % pid)
-    pvo = pfile[:-2] + '.vo'
-    ok, out, checker_cmd, coq_s = coq_build([pvo] + list(chk.extra_coq_targets), force=[pvo])
-    open(os.path.join(rundir, 'coq.log'), 'w').write(out)
-    theorems, assumptions = parse_assumptions(out, pfile)
-    obligations = len(theorems)
-    discharged = len([t for t in theorems if t in assumptions]) if ok else 0
-    broken = []
-    if not ok:
-        for m in re.finditer(r'File "\./([^"]+)", line (\d+).*?\n(Error.*?)(?=\nmake|\nFile|\Z)', out, flags=re.S):
-            broken.append('%s:%s %s' % (m.group(1), m.group(2), ' '.join(m.group(3).split())[:300]))
-        problems.append(('proof', 'proof obligations no longer check: ' + ('; '.join(broken) or out[-1500:])))
-    axioms = sorted(set(a for v in assumptions.values() if v.startswith('Axioms') for a in re.findall(r'^\s*([A-Za-z0-9_.\']+)\s*:', v, flags=re.M)))
+        # --- proofs
+        pfile = chk.properties_file or ('Properties/%s.v' % pid)
+        pvo = pfile[:-2] + '.vo'
+        ok, out, checker_cmd, coq_s = coq_build([pvo] + list(chk.extra_coq_targets), force=[pvo])
+        open(os.path.join(rundir, 'coq.log'), 'w').write(out)
+        theorems, assumptions = parse_assumptions(out, pfile)
+        obligations = len(theorems)
+        discharged = len([t for t in theorems if t in assumptions]) if ok else 0
+        broken = []
+        if not ok:
+            for m in re.finditer(r'File "\./([^"]+)", line (\d+).*?\n(Error.*?)(?=\nmake|\nFile|\Z)', out, flags=re.S):
+                broken.append('%s:%s %s' % (m.group(1), m.group(2), ' '.join(m.group(3).split())[:300]))
+            problems.append(('proof', 'proof obligations no longer check: ' + ('; '.join(broken) or out[-1500:])))
+        axioms = sorted(set(a for v in assumptions.values() if v.startswith('Axioms') for a in re.findall(r'^\s*([A-Za-z0-9_.\']+)\s*:', v, flags=re.M)))
 
-    # --- executables
-    drv, msg = build_driver(chk.group)
-    if drv is None:
-        problems.append(('driver', msg))
+        # --- executables
+        drv, msg = build_driver(chk.group)
+        if drv is None:
+            problems.append(('driver', msg))
+    finally:
+        gen_lock.__exit__(None, None, None)
     exes = {}
     for tag, flags in chk.variants().items():
         exe, msg = build_harness(chk.group, rundir, tag, flags, san=chk.sanitizers(tag))
